@@ -70,6 +70,7 @@ def streams(tier, rng):
     return [
         L.make_stream("c03-corpus", "c03", L.corpus("C03")),
         L.e2e_stream("c03-e2e-table", e2e),
+        L.fig_stream("c03-figures-large", rng, 80 if not big else 2000),
         L.make_stream("c03-counts", "c03", cases, hist=L.histogram(cases),
                       describe="(n, s, T, mode) x cost scripts, no time budget"),
         L.make_stream("c03-budget-premise", "c03", aimed, hist=L.histogram(aimed),
